@@ -186,8 +186,22 @@ class Emitter:
         self.emissions = []
         self.aligns = []                    # (kind, lineno, Elem, Elem)
         self.notes = []
+        self.nn = set()                     # linear forms known to be >= 0 (lengths, counters, their sums)
 
     # ---- expressions
+    def mark(self, l):
+        if isinstance(l, Lin):
+            self.nn.add(l)
+        return l
+
+    def sgn(self, l):
+        """-1: counted from the end (the negation of a known non-negative form, or all coefficients <= 0); else +1"""
+        if l in self.nn:
+            return 1
+        if l.c and (-l) in self.nn:
+            return -1
+        return -1 if l.sign() < 0 else 1
+
     def ev(self, n):
         m = getattr(self, 'e_' + type(n).__name__, None)
         if m is None:
@@ -198,7 +212,8 @@ class Emitter:
         if isinstance(n.value, bool):
             return Opaque('bool')
         if isinstance(n.value, int):
-            return Lin.const(n.value)
+            l = Lin.const(n.value)
+            return self.mark(l) if n.value >= 0 else l
         if isinstance(n.value, str):
             return Text([n.value])
         return Opaque('const')
@@ -233,7 +248,7 @@ class Emitter:
         a, b = self.ev(n.left), self.ev(n.right)
         if isinstance(a, Lin) and isinstance(b, Lin):
             if isinstance(n.op, ast.Add):
-                return a + b
+                return self.mark(a + b) if a in self.nn and b in self.nn else a + b
             if isinstance(n.op, ast.Sub):
                 return a - b
             if isinstance(n.op, ast.Mult) and (a.is_const() or b.is_const()):
@@ -322,15 +337,9 @@ class Emitter:
         if step == 1:
             start, stop = Lin(), v.length
             if lo is not None:
-                s = lo.sign()
-                if s == 0:
-                    return Opaque('slice bound of mixed sign')
-                start = lo if s > 0 else v.length + lo
+                start = lo if self.sgn(lo) >= 0 else v.length + lo
             if hi is not None:
-                s = hi.sign()
-                if s == 0:
-                    return Opaque('slice bound of mixed sign')
-                stop = hi if s > 0 else v.length + hi
+                stop = hi if self.sgn(hi) >= 0 else v.length + hi
             return View(v.base, v.off + start.scale(v.step), v.step, stop - start)
         if lo is None and hi is None:
             return View(v.base, v.off + (v.length - Lin.const(1)).scale(v.step), -v.step, v.length)
@@ -343,11 +352,10 @@ class Emitter:
                 return self._slice(v, n.slice)
             k = self.ev(n.slice)
             if isinstance(k, Lin):
-                s = k.sign()
-                if s > 0:
-                    return v.at(k)
-                if s < 0:
+                if self.sgn(k) < 0:
                     return v.at(v.length + k)
+                # non-negative, or of mixed sign (i-1): counted from the front; it can then only agree with a required index it equals
+                return v.at(k)
             return Opaque('index')
         if isinstance(n.slice, ast.Slice):
             for x in (n.slice.lower, n.slice.upper, n.slice.step):
@@ -363,7 +371,7 @@ class Emitter:
             args = [self.ev(a) for a in n.args]
             if f.id == 'len' and len(args) == 1:
                 ln = _iter_len(args[0])
-                return ln if ln is not None else Opaque('len')
+                return self.mark(ln) if ln is not None else Opaque('len')
             if f.id == 'enumerate' and args:
                 start = args[1] if len(args) > 1 else Lin()
                 for k in n.keywords:
@@ -411,6 +419,8 @@ class Emitter:
             return it.at(j)
         if isinstance(it, Enum):
             cnt = (it.start + j) if it.start is not None else Opaque('enumerate start')
+            if it.start is not None and it.start in self.nn:
+                self.mark(cnt)
             return Tup([cnt, self.element(it.it, j, lineno)])
         if isinstance(it, Zip):
             els = [self.element(x, j, lineno) for x in it.its]
@@ -448,7 +458,7 @@ class Emitter:
             elif isinstance(s, ast.For):
                 it = self.ev(s.iter)
                 self.nloops += 1
-                j = Lin.sym('j%d' % self.nloops)
+                j = self.mark(Lin.sym('j%d' % self.nloops))
                 if isinstance(it, (View, Enum, Zip)):
                     self.loops.append((('j%d' % self.nloops), _iter_len(it)))
                     self.bind(s.target, self.element(it, j, s.lineno), s.lineno)
